@@ -100,7 +100,7 @@ fn copy_one_read<R: Read + ?Sized, W: Write + ?Sized>(r: &mut R, _w: &mut W) -> 
 //@ props: C01 C11
 //@ functions: layers::compress::SizesInfo::uncompressed_block_size_at; SizesInfo::compressed_block_size_at; SizesInfo::max_uncompressed_pos; SizesInfo::get_compressed_size
 //@ bounds: production constants; size tables of 1..=3 entries, every u32 entry value; last block size 1..=4 MiB; every position inside the stream
-//@ outside: tables with more than 3 blocks (the functions index by block number only)
+//@ outside: tables with more than {BLOCKS} blocks (the functions index by block number only)
 //@ replay: verif_replay_compress::cmp_sizes k:usize a:u32 b:u32 c:u32 last:u32 pos:u64
 #[kani::proof]
 #[kani::unwind(5)]
@@ -134,8 +134,10 @@ fn h_cmp_sizes() {
 // ------------------------------------------------------------------------------------------
 // H-CMP-SEEK: the real Seek::seek of the compression reader (C11, C10)
 // ------------------------------------------------------------------------------------------
+/// blocks in the symbolic size tables of the functional harnesses: VERIF_BLOCKS (quick 2, thorough 3)
+const MAX_BLOCKS: usize = env_u32(option_env!("VERIF_BLOCKS"), 2) as usize;
 fn any_wf_table() -> (Vec<u32>, usize, u32) {
-    let (v, k) = any_sizes(3);
+    let (v, k) = any_sizes(MAX_BLOCKS);
     let last: u32 = kani::any();
     kani::assume(last >= 1 && u64::from(last) <= SPEC_BLOCK);
     (v, k, last)
@@ -177,9 +179,9 @@ fn assert_cmp_positioned(r: &CompressionLayerReader<'static, Abs>, sizes: &[u32;
 
 //@ props: C11 C10 C01
 //@ functions: <layers::compress::CompressionLayerReader<R> as std::io::Seek>::seek (Start arm); CompressionLayerReader::sync_inner_with_uncompressed_pos; new_decompressor_at; uncompressed_block_size_at
-//@ bounds: production constants; tables of 1..=3 blocks, every u32 compressed size, last block 1..=4 MiB; every target 0 <= p <= len; arbitrary pre-state (Ready or inside any block, any counters)
+//@ bounds: production constants; tables of 1..={BLOCKS} blocks, every u32 compressed size, last block 1..=4 MiB; every target 0 <= p <= len; arbitrary pre-state (Ready or inside any block, any counters)
 //@ stubs: brotli -> position-only model (Decompressor returns everything asked); std::io::copy -> single maximal read; alloc::fmt::format; From<mla::Error> for io::Error
-//@ outside: more than 3 blocks; decompressed byte values
+//@ outside: more than {BLOCKS} blocks; decompressed byte values
 //@ replay: verif_replay_compress::cmp_seek op=start k:usize a:u32 b:u32 c:u32 last:u32 ipos:u64 upos:u64 in_data:bool p:u64
 #[kani::proof]
 #[kani::unwind(5)]
@@ -196,7 +198,7 @@ fn h_cmp_seek_start() {
     kani::assume(p <= total);
     kani::cover!(p == total && u64::from(last) == SPEC_BLOCK, "seek to the end, last block exactly full");
     kani::cover!(p == total && u64::from(last) < SPEC_BLOCK, "seek to the end, partial last block");
-    kani::cover!(p / SPEC_BLOCK == 2, "third block");
+    kani::cover!(p / SPEC_BLOCK == (MAX_BLOCKS as u64 - 1), "last block of the largest table");
     kani::cover!(p % SPEC_BLOCK == 0 && p > 0 && p < total, "block-aligned target");
     unsafe { brotli::DEC_FULL = true };
     let res = r.seek(SeekFrom::Start(p));
@@ -227,10 +229,10 @@ fn h_cmp_seek_start() {
 
 //@ props: C11 C10
 //@ functions: <layers::compress::CompressionLayerReader<R> as std::io::Seek>::seek (End and Current arms, then Start arm)
-//@ bounds: production constants; tables of 1..=3 blocks; End(d) with -len <= d <= 0; Current(d) from any position c in [0,len] with 0 <= c+d <= len
+//@ bounds: production constants; tables of 1..={BLOCKS} blocks; End(d) with -len <= d <= 0; Current(d) from any position c in [0,len] (reader Ready) with 0 <= c+d <= len
 //@ stubs: brotli -> position-only model; std::io::copy -> single maximal read; alloc::fmt::format; From<mla::Error> for io::Error
-//@ outside: more than 3 blocks
-//@ replay: verif_replay_compress::cmp_seek op=rel k:usize a:u32 b:u32 c:u32 last:u32 from_end:bool cur:u64 d:i64
+//@ outside: more than {BLOCKS} blocks
+//@ replay: verif_replay_compress::cmp_seek op=rel in_data=0 k:usize a:u32 b:u32 c:u32 last:u32 from_end:bool cur:u64 d:i64
 #[kani::proof]
 #[kani::unwind(5)]
 #[kani::stub(alloc::fmt::format, nofmt)]
@@ -249,6 +251,7 @@ fn h_cmp_seek_rel() {
     let want_i = base as i128 + d as i128;
     kani::assume(want_i >= 0 && want_i <= total as i128);
     let want = want_i as u64;
+    // pre-state: Ready at `cur` (the InData representation is decided by h_cmp_seek_cur_indata)
     let mut r = mk_reader_ready(Abs::new(inner_len, 0), v, last, cur);
     kani::cover!(from_end && d == 0, "End(0)");
     kani::cover!(from_end && d == -4, "End(-4)");
@@ -271,17 +274,63 @@ fn h_cmp_seek_rel() {
     core::mem::forget(r);
 }
 
+//@ props: C11 C10
+//@ functions: <layers::compress::CompressionLayerReader<R> as std::io::Seek>::seek (Current arm from inside a block, then Start arm)
+//@ bounds: production constants; tables of 1..={BLOCKS} blocks; reader INSIDE the block holding its position c (in-block counter = c mod 4 MiB, decompressor having produced exactly that many bytes); Current(d) with 0 <= c+d <= len, d != 0
+//@ stubs: brotli -> position-only model; std::io::copy -> single maximal read; alloc::fmt::format; From<mla::Error> for io::Error
+//@ outside: more than {BLOCKS} blocks
+//@ replay: verif_replay_compress::cmp_seek op=rel in_data=1 from_end=0 k:usize a:u32 b:u32 c:u32 last:u32 cur:u64 d:i64
+#[kani::proof]
+#[kani::unwind(5)]
+#[kani::stub(alloc::fmt::format, nofmt)]
+#[kani::stub(<std::io::Error as std::convert::From<crate::errors::Error>>::from, cheap_from)]
+#[kani::stub(std::io::copy, copy_one_read)]
+fn h_cmp_seek_cur_indata() {
+    let (v, k, last) = any_wf_table();
+    let sizes = [v[0], if k >= 2 { v[1] } else { 0 }, if k >= 3 { v[2] } else { 0 }];
+    let total = spec_len(k, last);
+    let inner_len = sum_first(&sizes, k) + 64;
+    let cur: u64 = kani::any();
+    kani::assume(cur < total);
+    let d: i64 = kani::any();
+    let want_i = cur as i128 + d as i128;
+    kani::assume(d != 0 && want_i >= 0 && want_i <= total as i128);
+    let want = want_i as u64;
+    let b = (cur / SPEC_BLOCK) as usize;
+    let us = if b + 1 < k { SPEC_BLOCK as u32 } else { last };
+    let mut r = mk_reader_indata(Abs::new(inner_len, 0), v, last, cur, (cur % SPEC_BLOCK) as u32, us, u64::from(sizes[b]));
+    if let CompressionLayerReaderState::InData { decompressor, .. } = &mut r.state {
+        decompressor.produced = cur % SPEC_BLOCK;
+    }
+    kani::cover!(d > 0 && cur / SPEC_BLOCK == want / SPEC_BLOCK && (b + 1 < k), "forward inside the current, non-last block");
+    kani::cover!(d < 0 && cur / SPEC_BLOCK == want / SPEC_BLOCK, "backward inside the current block");
+    kani::cover!(cur / SPEC_BLOCK != want / SPEC_BLOCK, "into another block");
+    unsafe { brotli::DEC_FULL = true };
+    let res = r.seek(SeekFrom::Current(d));
+    match res {
+        Ok(got) => {
+            assert!(got == want, "relative seek returns the cursor position");
+            assert_cmp_positioned(&r, &sizes, k, last, want);
+        }
+        Err(e) => {
+            core::mem::forget(e);
+            assert!(false, "relative seek inside [0, len] fails on a well-formed stream");
+        }
+    }
+    core::mem::forget(r);
+}
+
 // ------------------------------------------------------------------------------------------
 // H-CMP-R-STEP: one real read() from any consistent state (C01 block bookkeeping, C10, C11)
 // ------------------------------------------------------------------------------------------
 //@ props: C01 C10 C11
 //@ functions: <layers::compress::CompressionLayerReader<R> as std::io::Read>::read (all arms incl. block change recursion); pos_in_stream; sync_inner_with_uncompressed_pos
-//@ bounds: production constants; tables of 1..=3 blocks; reader at any position c in [0,len] in state Ready or InData(read = c mod 4MiB or = block size at a block edge); caller buffer 0..=8 bytes; decompressor returns any count <= asked
+//@ bounds: production constants; tables of 1..={BLOCKS} blocks; reader at any position c in [0,len] in state Ready or InData(read = c mod 4MiB or = block size at a block edge); caller buffer 0..=8 bytes; decompressor returns any count <= asked
 //@ stubs: brotli::Decompressor -> nondeterministic count, no data; alloc::fmt::format; From<mla::Error> for io::Error
 //@ outside: byte values; decompressor errors
 //@ replay: verif_replay_compress::cmp_read k:usize a:u32 b:u32 c:u32 last:u32 c_pos:u64 ready:bool at_edge:bool blen:usize
 #[kani::proof]
-#[kani::unwind(5)]
+#[kani::unwind(4)]
 #[kani::stub(alloc::fmt::format, nofmt)]
 #[kani::stub(<std::io::Error as std::convert::From<crate::errors::Error>>::from, cheap_from)]
 fn h_cmp_read_step() {
